@@ -128,7 +128,9 @@ def run_native(dh, prop, tier, seed, out_dir, budget_s, procs, proc_ms, families
                 return None, ['harness error'], []
             d = None
             if os.path.exists(out):
-                try: d = json.load(open(out)); results.append(d)
+                try:
+                    d = json.load(open(out)); results.append(d)
+                    if os.environ.get('VERIF_STOP_ON_VIOLATION') and any(v['property'] == prop for v in d.get('violations', [])): t_end = time.time()
                 except Exception as e: inconclusive.append('process %d: unreadable output (%s)' % (idx, e))
             elif not tool:
                 inconclusive.append('process %d exited with code %s and no output: %s' % (idx, rc, txt[-300:].replace('\n', ' | ')))
@@ -222,7 +224,10 @@ def run_check(prop, tier, seed):
     if prop not in RULES:
         log('unknown property', prop); return 2
     t0 = time.time()
-    b = BUDGET[tier]
+    b = dict(BUDGET[tier])
+    scale = float(os.environ.get('VERIF_BUDGET_SCALE', '1'))
+    for k in list(b):
+        if k.endswith('_s'): b[k] = max(5, b[k] * scale)
     out_dir = os.path.join(BUILD, 'run', prop)
     shutil.rmtree(out_dir, ignore_errors=True)
     os.makedirs(out_dir, exist_ok=True)
